@@ -335,7 +335,14 @@ def main(argv):
     hits = forbidden_tokens(mod.LEAN_MODULES)
     for hit in hits:
         broken.append("audit: forbidden token " + hit)
-    required = getattr(mod, "REQUIRED_THEOREMS", [])
+    required = list(getattr(mod, "REQUIRED_THEOREMS", []))
+    try:
+        with open(os.path.join(HERE, "required_theorems.json")) as handle:
+            for name in json.load(handle).get(prop, []):
+                if name not in required:
+                    required.append(name)
+    except OSError:
+        pass
     for name in required:
         if binfo["proof_ok"] and name not in theorems:
             broken.append("audit: required theorem %s is missing" % name)
